@@ -31,7 +31,18 @@ from .loader import AnalysisError
 from .loader import FuncInfo
 
 
-_PURE_FUNCS: Dict[str, Callable[..., Any]] = {"int": int, "str": str, "len": len, "float": float, "bool": bool, "abs": abs}
+_PURE_FUNCS: Dict[str, Callable[..., Any]] = {
+    "int": int, "str": str, "len": len, "float": float, "bool": bool, "abs": abs,
+    # iteration helpers: their result is materialised (the explorer iterates over sequences it knows)
+    "enumerate": lambda *a: list(enumerate(*a)), "zip": lambda *a: list(zip(*a)), "range": lambda *a: list(range(*a)),
+    "list": list, "tuple": tuple, "reversed": lambda a: list(reversed(a)), "min": min, "max": max, "sum": sum, "slice": slice,
+}
+_PLAIN = (str, int, float, bool, type(None), tuple, list, dict, slice)
+_PLAIN_CLASSES = {
+    "str": (str,), "int": (int,), "float": (float,), "bool": (bool,), "list": (list,), "tuple": (tuple,), "dict": (dict,),
+    "Sequence": (str, list, tuple), "MutableSequence": (list,), "Mapping": (dict,), "MutableMapping": (dict,),
+    "Iterable": (str, list, tuple, dict), "Collection": (str, list, tuple, dict), "Sized": (str, list, tuple, dict),
+}
 
 
 class _Unknown:
@@ -107,6 +118,7 @@ class Explorer:
         self.enter_loops = enter_loops  # walk a `for` body once (targets unknown) instead of skipping it
         self._loop_exits: List[List[Dict[str, Any]]] = []
         self._try_depth = 0
+        self._dropped = 0  # paths that ended in a certain exception
         self.enter_with = enter_with
         self.outcomes: List[Outcome] = []
         self.envs: List[Dict[str, Any]] = []  # environment of each outcome, same order
@@ -121,10 +133,19 @@ class Explorer:
                 return v
         if isinstance(e, ast.Name) and e.id in env:
             return env[e.id]
+        if isinstance(e, ast.Await):
+            return self.value(e.value, env)
+        if isinstance(e, (ast.Tuple, ast.List)) and isinstance(e.ctx, ast.Load) and not any(isinstance(x, ast.Starred) for x in e.elts) and (
+                self.enter_with or any(isinstance(n, (ast.Attribute, ast.Call)) for n in ast.walk(e))):
+            # a display whose items involve objects: item by item
+            items_ = [self.value(x, env) for x in e.elts]
+            return tuple(items_) if isinstance(e, ast.Tuple) else items_
         if isinstance(e, ast.Attribute):
             base = self.value(e.value, env) if isinstance(e.value, (ast.Name, ast.Attribute)) else None
             if isinstance(base, AbstractObject):
                 return base.peval_getattr(e.attr)
+            if isinstance(base, slice) and e.attr in ("start", "stop", "step"):
+                return getattr(base, e.attr)
         if isinstance(e, ast.Subscript) and isinstance(e.ctx, ast.Load) and isinstance(e.value, ast.Name) and isinstance(env.get(e.value.id), dict):
             k = self.value(e.slice, env)
             if isinstance(k, (str, int)) and not isinstance(k, (bool, Text)):
@@ -198,16 +219,58 @@ class Explorer:
                 if r is not None:
                     return r
             if (isinstance(e.func, ast.Name) and e.func.id in _PURE_FUNCS and e.func.id not in env and not e.keywords and args
-                    and all(isinstance(a, (str, int, float, bool, type(None), tuple)) and not isinstance(a, Text) for a in args)):
+                    and all(isinstance(a, _PLAIN) and not isinstance(a, Text) for a in args)
+                    and not any(isinstance(a_, ast.Starred) for a_ in e.args)):
                 # a pure builtin on values the path knows (the arguments may come from model objects)
                 try:
                     return _PURE_FUNCS[e.func.id](*args)
                 except Exception:  # noqa: BLE001
                     return UNKNOWN
+            if (isinstance(e.func, ast.Name) and e.func.id in ("range", "zip") and e.func.id not in env and not e.keywords
+                    and any(isinstance(a_, ast.Starred) for a_ in e.args)):
+                flat: List[Any] = []
+                okf = True
+                for a_, v_ in zip(e.args, args):
+                    if isinstance(a_, ast.Starred):
+                        sv = self.value(a_.value, env)
+                        if isinstance(sv, (tuple, list)):
+                            flat.extend(sv)
+                        else:
+                            okf = False
+                    else:
+                        flat.append(v_)
+                if okf and all(isinstance(a, _PLAIN) for a in flat):
+                    try:
+                        return _PURE_FUNCS[e.func.id](*flat)
+                    except Exception:  # noqa: BLE001
+                        return UNKNOWN
+            if isinstance(e.func, ast.Name) and e.func.id == "getitem" and e.func.id not in env and len(args) == 2 and not e.keywords:  # noqa: PLR2004
+                # operator.getitem on a container and a key the path knows; a missing key / index ends the path
+                try:
+                    gv = self.folder.global_value(self.fn.module, "getitem")
+                except Exception:  # noqa: BLE001
+                    gv = None
+                if isinstance(gv, ExtRef) and str(gv.name) in ("operator.getitem", "getitem") and isinstance(args[0], (tuple, list, dict, str)) and isinstance(
+                        args[1], (int, str, slice)) and not isinstance(args[0], Text):
+                    try:
+                        return args[0][args[1]]
+                    except (KeyError, IndexError) as err:
+                        raise _PathRaises(type(err).__name__) from None
+                    except (TypeError, ValueError) as err:
+                        raise _PathRaises(type(err).__name__) from err
             if isinstance(e.func, ast.Attribute) and not e.keywords and isinstance(e.func.value, (ast.Name, ast.Attribute, ast.Subscript)):
                 # a pure method of a plain value the path knows (a table looked up with a known key)
                 recv = self.value(e.func.value, env)
                 plain = all(isinstance(a, (str, int, float, bool, type(None), tuple)) and not isinstance(a, Text) for a in args)
+                if isinstance(recv, dict) and e.func.attr in ("items", "keys", "values") and not args:
+                    return list(getattr(recv, e.func.attr)())
+                if isinstance(recv, slice) and e.func.attr == "indices" and len(args) == 1 and isinstance(args[0], int):
+                    try:
+                        return recv.indices(args[0])
+                    except ValueError as err:
+                        raise _PathRaises("ValueError") from err
+                    except Exception:  # noqa: BLE001
+                        return UNKNOWN
                 if isinstance(recv, dict) and e.func.attr == "get" and 1 <= len(args) <= 2 and plain:  # noqa: PLR2004
                     try:
                         return recv.get(*args)
@@ -310,6 +373,19 @@ class Explorer:
                 names = class_names(t.args[1])
                 if names is not None:
                     return subj.peval_isinstance(names)
+            elif isinstance(subj, _PLAIN) and not isinstance(subj, Text) and (subj is not None or self.enter_with):
+                # (None only for explorers that run whole bodies on concrete samples: elsewhere None is also
+                # what an unset model field reads as)
+                from .kinds import class_names
+
+                names = class_names(t.args[1])
+                if names is not None and all(n_ in _PLAIN_CLASSES for n_ in names):
+                    return any(isinstance(subj, _PLAIN_CLASSES[n_]) for n_ in names)
+        if (isinstance(t, ast.Call) and isinstance(t.func, ast.Name) and t.func.id == "hasattr" and len(t.args) == 2  # noqa: PLR2004
+                and isinstance(t.args[1], ast.Constant) and isinstance(t.args[1].value, str)):
+            subj2 = self.value(t.args[0], env)
+            if isinstance(subj2, _PLAIN) and not isinstance(subj2, Text) and subj2 is not None:
+                return hasattr(subj2, t.args[1].value)
         if isinstance(t, ast.UnaryOp) and isinstance(t.op, ast.Not):
             v = self.test(t.operand, env)
             return None if v is None else not v
@@ -403,6 +479,7 @@ class Explorer:
                 except _PathRaises:
                     # this path ends here with an exception: inside a `try` body the handlers take over (they
                     # are explored anyway), elsewhere it is a way out of the function
+                    self._dropped += 1
                     if self._try_depth == 0:
                         self.outcomes.append(("raise", s, None))
                         self.envs.append(e)
@@ -419,6 +496,19 @@ class Explorer:
             # the path has reached a statement that produces values (a generator's output)
             env = dict(env)
             env["$yield"] = True
+        if isinstance(s, ast.Expr) and isinstance(s.value, (ast.Yield, ast.YieldFrom)) and self.enter_with:
+            # explorers that run whole bodies keep what a generator produces, in order, per path
+            env = dict(env)
+            got_ = self.value(s.value.value, env) if s.value.value is not None else None
+            if not isinstance(env.get("$yields", ()), tuple):
+                return [env]  # already unknown (paths with different outputs were merged)
+            if isinstance(s.value, ast.Yield):
+                env["$yields"] = tuple(env.get("$yields", ())) + (got_,)
+            elif isinstance(got_, (list, tuple)):
+                env["$yields"] = tuple(env.get("$yields", ())) + tuple(got_)
+            else:
+                env["$yields"] = tuple(env.get("$yields", ())) + (UNKNOWN,)
+            return [env]
         if isinstance(s, ast.Expr):
             if isinstance(s.value, ast.Constant):
                 return [env]
@@ -483,7 +573,7 @@ class Explorer:
                 eh["$handlers"] = tuple(eh.get("$handlers", ())) + (h,)
                 out2.extend(self.block(h.body, eh))
             return out2
-        if isinstance(s, ast.For) and self.enter_loops and not s.orelse:
+        if isinstance(s, (ast.For, ast.AsyncFor)) and self.enter_loops and not s.orelse and (isinstance(s, ast.For) or self.enter_with):
             seq = self.value(s.iter, env)
             if isinstance(seq, (tuple, list)) and len(seq) <= 16:  # noqa: PLR2004
                 # a loop over a sequence the path knows: executed item by item
@@ -537,8 +627,15 @@ class Explorer:
                     for n in ast.walk(it.optional_vars):
                         if isinstance(n, ast.Name):
                             env[n.id] = UNKNOWN
-            out3 = self.block(s.body, dict(env))
-            if swallows:
+            before = self._dropped
+            try:
+                self._try_depth += 1 if swallows else 0
+                out3 = self.block(s.body, dict(env))
+            finally:
+                self._try_depth -= 1 if swallows else 0
+            if swallows and self._dropped > before:
+                # a statement of the body certainly raised: the block was abandoned there and control goes on
+                # after it (names the body assigns are unknown from here)
                 ea = dict(env)
                 for n in ast.walk(ast.Module(body=s.body, type_ignores=[])):
                     if isinstance(n, ast.Name) and isinstance(n.ctx, ast.Store):
